@@ -194,10 +194,10 @@ func C02(r *h.Run) {
 	for ci, code := range codes[:16] {
 		for mi, msg := range errMessages {
 			for pi, proto := range protos {
-				n++
-				if !r.Thorough() && n%3 != 0 {
-					continue
+				if !r.Thorough() && (ci+2*mi+pi)%3 != 0 {
+					continue // quick: one protocol per (code, message), rotating
 				}
+				n++
 				kind := kinds[(ci+mi+pi)%4]
 				codec := []string{"proto", "json"}[(ci+mi)%2]
 				k := []int{0, 1, 3}[(ci+pi)%3]
@@ -231,12 +231,24 @@ func C02(r *h.Run) {
 					resMsgs = [][]byte{} // none sent before the error
 				}
 				ex := &e2eExtras{ResHeader: http.Header{"X-Hdr": {"h1"}}, ResTrailer: http.Header{"X-Trl": {"t1"}}}
+				if n%2 == 0 {
+					// the handler's trailers (and headers) use a key the error's metadata uses too:
+					// the values of both must arrive
+					ex.ResTrailer.Add("X-Err", "from-trailer")
+					ex.ResHeader.Add("X-Other-Key", "from-header")
+				}
+				smallLimit := kind == "unary" && n%4 < 2
+				if smallLimit {
+					// the client limits the size of response MESSAGES; the error is not one
+					copts = append(copts, connect.WithReadMaxBytes(16))
+				}
 				send := resMsgs
 				if kind == "unary" || kind == "client" {
 					send = [][]byte{{1}} // never sent: these kinds return the error instead of a response
 				}
 				res := runE2E(bytesValueKind, kind, via, copts, nil, [][]byte{{1}, {2}}, send, retErr, 0, ex)
-				in := map[string]any{"proto": proto, "codec": codec, "kind": kind, "code": code.String(), "message_hex": h.Hex([]byte(msg[:minInt(len(msg), 40)])), "details": nd, "meta": meta, "messages_before_error": len(res.ClientGot), "via": via}
+				in := map[string]any{"proto": proto, "codec": codec, "kind": kind, "code": code.String(), "message_hex": h.Hex([]byte(msg[:minInt(len(msg), 40)])), "details": nd, "meta": meta, "messages_before_error": len(res.ClientGot), "via": via,
+					"handler_trailers": ex.ResTrailer, "handler_headers": ex.ResHeader, "client_read_max_bytes": map[bool]int{true: 16}[smallLimit]}
 				r.Eval("e2e_error", fmt.Sprint(n))
 				if res.Panic != nil {
 					r.Fail(h.Failure{Key: "error/panic-or-hang", Family: "e2e_error", What: fmt.Sprint(res.Panic), Input: in})
